@@ -75,13 +75,15 @@ def deductive(prop, tier):
 
     tasks = []
     seen = set()
-    for groups, fn, mode, shards, t in P.DEDUCTIVE.get(prop, []):
+    for groups, fn, mode, shards, t, only in P.DEDUCTIVE.get(prop, []):
         if t == "thorough" and tier != "thorough":
+            continue
+        if t == "quick-only" and tier != "quick":
             continue
         if fn in seen:
             continue
         seen.add(fn)
-        tasks.append((groups, fn, mode, shards))
+        tasks.append((groups, fn, mode, shards, only))
     if not tasks:
         return {}
     timeout = 10000 if tier == "quick" else 30000
@@ -377,8 +379,9 @@ def record_baseline():
 
     tasks = {}
     for prop in P.ALL:
-        for groups, fn, mode, shards, t in P.DEDUCTIVE.get(prop, []):
-            tasks[fn] = (groups, fn, mode, shards)
+        for groups, fn, mode, shards, t, only in P.DEDUCTIVE.get(prop, []):
+            if t != "quick-only":
+                tasks[fn] = (groups, fn, mode, shards, "")
     res = run_tasks(list(tasks.values()), REPO, timeout_ms=30000, procs=16, max_fail=0)
     deps = dep_hashes(res)
     out = {"functions": {}, "contracts": contract_hash(), "recorded_at": time.strftime("%Y-%m-%dT%H:%M:%SZ", time.gmtime())}
